@@ -5,7 +5,7 @@ import copy
 
 import numpy as np
 
-from .. import build, gen, monitors
+from .. import expr as E, build, gen, monitors
 from . import common as K
 
 ID = "C16"
@@ -104,19 +104,33 @@ def run_unit(unit, ctx):
     rng = K.unit_rng(ID, ctx["seed"], unit)
     defn = gen.contractive_program(rng, n_state=(1, 4), n_control=(0, 3), n_calib=(0, 2), n_sensor=(1, 3),
                                    n_reading=(1, 3), depth=1, n_shared=(0, 1), allow_text=False)
+    extra = (unit["i"] % 5 == 4)
+    if extra:
+        from .c17 import constant_velocity_defn
+
+        defn = constant_velocity_defn(rng)
+        defn["sensors"]["odo"] = {"v_meas": E.S("v")}          # a second sensor, read after the first
+        defn["sensor_noises"]["odo"] = {"v_meas": 0.7}
+        defn["reading_keys"]["odo"] = "str"
+        R.stats.inc("estimators_with_extra_validation")
     b = build.Built(defn)
     k = rng.choice([None, None, 2.0, 5.0])
+    if extra:
+        k = rng.choice([None, 1.5])
     # the adapter's step is fixed (0.1) whatever the other configuration fields say
     md = rng.choice([0.1, 0.1, 0.02, 0.5, 0.0123456789, 1.0])
     if md != 0.1:
         R.stats.inc("estimators_with_non_default_max_dt_sec")
-    cfg = python.Config(common_subexpression_elimination=rng.random() < 0.5, innovation_filtering=k, max_dt_sec=md)
+    cfg = python.Config(common_subexpression_elimination=rng.random() < 0.5, innovation_filtering=k, max_dt_sec=md,
+                        extra_validation=extra)
     ad = python.SklearnEKFAdapter.Create(b.ui_model, b.process_noise, b.sensor_models, b.sensor_noises,
                                          b.calibration_map, config=cfg)
     width = len(defn["control"]) + sum(len(rd) for rd in defn["sensors"].values())
     rows = rng.randint(3, 12)
     scale = rng.choice([0.1, 1.0, 1.0, 3.0])
     X = np.array([[rng.gauss(0, 1) * scale for _ in range(width)] for _ in range(rows)])
+    if extra:
+        X[1::2, len(defn["control"])] *= 25.0   # gross outliers in the first sensor's column: edited or not, by k
     x_kind = ("float64", "int64", "float64", "float32", "intlist", "int16")[unit["i"] % 6]
     X_in = None
     if x_kind in ("int64", "intlist", "int16"):
